@@ -94,6 +94,16 @@ def run(ctx, prog, res):
     r1.check(not badrows and sorted(lits) == sorted(variants) and len(set(lits)) == len(lits), {"from_str_rows": len(rows), "each_code_parses_to_its_variant": True}, "C10.R1:from_str",
              "FromStr table: wrong rows %s, missing %s, extra %s" % (badrows[:4], sorted(set(variants) - set(lits))[:4], sorted(set(lits) - set(variants))[:4]), lib.where_of(fs))
     r1.check(len(default) == 1 and default[0].startswith("Result::Err{"), {"anything_else": default}, "C10.R1:from_str-default", "unknown codes are not rejected: %s" % default, lib.where_of(fs))
+    # ... and what is compared with the codes is the caller's string itself (a trimmed, split, re-cased or otherwise
+    # rewritten string accepts identifiers that are not ISO codes)
+    cmp_left = set()
+    for _, t_ in fs.calls():
+        if flow.call_name(t_).endswith("<impl core::cmp::PartialEq for str>::eq"):
+            for a_ in t_["args"]:
+                if not (a_.get("k") == "const" and a_.get("str") is not None):
+                    cmp_left.add(flow.shape(fs, a_, depth=4))
+    r1.check(cmp_left == {"p1"}, {"from_str_compares": sorted(cmp_left), "with": "the literal codes"}, "C10.R1:from_str-argument",
+             "Country::from_str does not compare the codes with its unmodified argument but with %s: strings that are not ISO 3166-1 alpha-2 codes (a subdivision id, another case, padding) are accepted" % sorted(cmp_left)[:3], lib.where_of(fs))
     pub, bad_pub = read_data_file(os.path.join(lib.REPO, "opening-hours/data/holidays_public.txt"))
     sch, bad_sch = read_data_file(os.path.join(lib.REPO, "opening-hours/data/holidays_school.txt"))
     r1.check(not bad_pub and not bad_sch, {"public_lines": sum(len(v) for v in pub.values()), "school_lines": sum(len(v) for v in sch.values()), "malformed": 0}, "C10.R1:data-lines",
